@@ -172,6 +172,13 @@ func (C12) Run(t *testing.T, plan *kernel.Plan, keepLog bool) *kernel.Result {
 			}
 			script = append(script, sel)
 		}
+		if part == 1 {
+			// rows of 7, 8, 15 and 16 columns (NULLs included), text and binary
+			c14WideTables(pw)
+			n := []int{7, 8, 15, 16}[int(plan.Seed>>3)%4]
+			script = append(script, Stmt{SQL: fmt.Sprintf("SELECT * FROM w%d", n)},
+				Stmt{SQL: fmt.Sprintf("SELECT * FROM w%d", n), Extended: true, Describe: true, ResultFormats: []int16{1}})
+		}
 		run := pw.RunSession(owner, script)
 		if w.Res.Cut {
 			return
